@@ -81,9 +81,17 @@ def runSeq (c : CaseIn) : Array String := Id.run do
       | ["rbres", i, r] =>
         (parseRes r).bind fun r =>
           if hang then some (some (.rbStep (nat! i) r), none) else (parseNext obs).map fun n => (some (.rbStep (nat! i) r), some (.rbres (nat! i) r n))
+      | ["bcastq", i, r] =>
+        -- Stop closed quit while the handler was inside the network call for this request
+        (parseRes r).map fun r =>
+          let ret : BRet := if hang then .hang else if obs == "ok" then .ok else if obs == "stopped" then .stopped else .err
+          (some (.bcast (txOf (nat! i)) r), some (.bcast (txOf (nat! i)) r ret))
       | ["quit"] => some (some .stop, some (.stop hang))
       | ["stopret"] => some (none, some (.stop hang))
       | _ => none
+    if ws.head? == some "bcastq" then
+      st := (step st .stop).1
+      os := (ostep os (.stop false)).1
     match parsed with
     | none => out := out.push s!"DIFF C15 case {c.num} line {ln}: unparsable line <{line}>"; diverged := true
     | some (mop, oobs) =>
